@@ -220,6 +220,16 @@ def _run_monitor(pid, rng, budget, tier):
         mon.case(e.case)
         mon.fail("valid call raised", e.case, "%s: %s" % (type(e.exc).__name__, e.exc))
         return mon
+    except (IndexError, KeyError, TypeError, AttributeError, ValueError, ZeroDivisionError) as e:
+        # the predicate could not even be evaluated on what the implementation returned (wrong shape, None where a
+        # number belongs, ...): reported against the case being examined
+        import traceback
+        case = monbase.LAST_CASE[0]
+        mon = monbase.Mon(pid)
+        mon.case(case)
+        mon.fail("the result could not be evaluated (malformed result)", case,
+                 "%s: %s | %s" % (type(e).__name__, e, traceback.format_exc().strip().splitlines()[-3].strip()))
+        return mon
 
 
 def _strip(obs):
